@@ -60,8 +60,27 @@ def _is_release(body, bb, drop_exits):
     return False
 
 
+def _svc_fields(f):
+    """fields of SentinelService by role (type), not by private name: the wrapped service, the fallback, the traffic type"""
+    a = f.adts.get("SentinelService") or next((v for k, v in f.adts.items() if k.endswith("SentinelService")), None)
+    out = {"inner": "inner", "fallback": "fallback", "traffic": "traffic_type"}
+    if a:
+        fl = a["variants"][0]["fields"]
+        gen = [x["name"] for x in fl if len(x["ty"]) <= 2 and "PhantomData" not in x["ty"]]
+        tr = [x["name"] for x in fl if x["ty"].endswith("TrafficType")]
+        fb = [x["name"] for x in fl if "Option<" in x["ty"] and "Error" in x["ty"] and " fn(" in x["ty"]]
+        if len(gen) == 1:
+            out["inner"] = gen[0]
+        if len(tr) == 1:
+            out["traffic"] = tr[0]
+        if len(fb) == 1:
+            out["fallback"] = fb[0]
+    return out
+
+
 def check_call(ctx, f, b, cfg, drop_exits):
     site = "%s [%s]" % (b.path, cfg)
+    SF = _svc_fields(f)
     inner = [bb for bb, t in b.calls() if callee_is(t, "tower::Service::call")]
     builds = [bb for bb, t in b.calls() if callee_is(t, "EntryBuilder::build")]
     if len(builds) != 1:
@@ -128,14 +147,19 @@ def check_call(ctx, f, b, cfg, drop_exits):
     # -- the receiver of the inner call is the wrapped service
     sl = Slicer(f, b)
     at = sl.of_operand(b.term(ic)["args"][0])
-    okr = any_atom(at, "field:SentinelService.inner")
+    okr = any_atom(at, "field:SentinelService." + SF["inner"])
     ctx.instance("C20.call-iff-admitted/receiver", site, sorted(a for a in at if a.startswith("field:")), "field:SentinelService.inner", okr, cfg)
     if not okr:
         ctx.violation("C20.call-iff-admitted", "C20.call-iff-admitted|%s|receiver" % cfg,
                       "the service called on the admitted path is not the wrapped `inner` service", b.loc(ic), config=cfg)
 
     # -- futures: classify closures of this body by which arm constructs them
-    clos = {c.path: c for c in f.closures_of(b)}
+    # closures / async blocks of this body and of the private helpers inlined into its view
+    clos = {}
+    for src in [b.path] + list(getattr(b, "inlined", [])):
+        sb = f.bodies.get(src)
+        if sb is not None:
+            clos.update({c.path: c for c in f.closures_of(sb)})
     ok_region = b.reachable([ok_t])
     err_region = b.reachable([err_t])
     # region exclusive parts
@@ -227,7 +251,7 @@ def check_call(ctx, f, b, cfg, drop_exits):
         t = b.term(bb)
         if t and t["k"] == "call" and "indirect" in t["callee"]:
             a = sl.of_operand(t["callee"]["indirect"])
-            if any_atom(a, "field:SentinelService.fallback"):
+            if any_atom(a, "field:SentinelService." + SF["fallback"]):
                 fb.append(bb)
     ctx.instance("C20.err-arm/fallback", site, "fallback call sites on Err arm: %s; error futures: %d" % ([b.loc(x) for x in fb], len(err_futs)),
                  ">=1 fallback call and a future on every Err path", bool(fb) and bool(err_futs), cfg)
@@ -249,7 +273,7 @@ def check_call(ctx, f, b, cfg, drop_exits):
     for bb, t in b.calls():
         if callee_is(t, "EntryBuilder::with_traffic_type"):
             a = sl.of_operand(t["args"][1])
-            okt = any_atom(a, "field:SentinelService.traffic_type")
+            okt = any_atom(a, "field:SentinelService." + SF["traffic"])
             ctx.instance("C20.traffic-role/arg", site, sorted(x for x in a if x.startswith(("field:", "variant:", "const:"))), "field:SentinelService.traffic_type", okt, cfg)
             if not okt:
                 ctx.violation("C20.traffic-role", "C20.traffic-role|%s|arg" % cfg, "the entry's traffic type is not the one fixed from the service role", b.loc(bb), config=cfg)
